@@ -62,6 +62,11 @@ extern ssize_t mpt_queue_push(MPT_STRUCT(encode_queue) *qu, size_t len, const vo
 		
 		return low;
 	}
+	/* message removal: result is data position (not consumed size),
+	 * encoder needs view on all finished data */
+	if (len && !base && qu->data.off) {
+		mpt_queue_align(&qu->data, 0);
+	}
 	from.iov_base = (void *) base;
 	from.iov_len  = len;
 	dest = qu->data.base;
